@@ -119,6 +119,10 @@ def bounded(check, tier, seed):
                 FmtStr(Chunk("\x1b[1mx")), fmtstr("a", "red") + "\x1b[44mq"]      # (the last two: escape text in UNformatted runs)
     # text that holds an ESC / 0x9b WITHOUT the 'ESC[' introducer (two-character escapes, a lone ESC, the 8-bit CSI), formatted and not:
     # the helpers take such text verbatim, so these round-trip
+    # one text per character class (zero-width characters OUTSIDE the BMP included: a \\uXXXX spelling cannot hold them), quotes, backslashes
+    from bounded.common import CHAR_CLASSES, ODD_CODEPOINTS
+    for ch in CHAR_CLASSES + ODD_CODEPOINTS + ["\U000e0100", "\U0001d167", "\U00011046", "\U000e0001", "'", '"', "\\", "\\u0041", "\N{BELL}"]:
+        esc_runs += [FmtStr(Chunk("a" + ch + "!", {"fg": 31})), FmtStr(Chunk(ch)), FmtStr(Chunk("p" + ch, {"bold": True}), Chunk(ch + "q", {"bg": 44}))]
     for t in ("\x1bM", "key \x1bOP", "\x1b", "a\x1b", "\x1b7x", "\x9b", "\x9b1m", "\x1b\x1b", "\x1bc", "\x1b]0;t\x07"):
         esc_runs += [FmtStr(Chunk(t, {"fg": 31})), FmtStr(Chunk(t)), FmtStr(Chunk("p", {"bold": True}), Chunk(t, {"bg": 44, "underline": True}))]
     for f in P[:n_repr] + esc_runs:
